@@ -574,10 +574,6 @@ Proof.
     + (* second group *)
       apply (Inv2_activate s sf h e (set_prev (last_or None la) v1) a'); auto; try (unfold sf; cbn; auto; fail).
       * intros x Hne. rewrite Gvf. split; [apply Hnone; auto|]. intros y Hy. destruct (Hrec x y Hne Hy) as [y3 [Hy3 [Ec _]]]. eauto.
-      * cbn. congruence.
-      * cbn. congruence.
-      * cbn. congruence.
-      * cbn. congruence.
       * cbn [v_weight v_locked set_prev v1 set_start set_status set_amounts a_lw a']. unfold v_multiplier.
         cbn [v_weight v_locked set_prev v1 set_start set_status set_amounts].
         assert (Ew : w = calc_weight (v_queued e1) mul + a_pw ag) by lia.
@@ -587,7 +583,7 @@ Proof.
            rewrite calc_200. reflexivity.
         -- apply N.ltb_ge in Epv. assert (Zp : a_pv ag = 0) by lia.
            assert (Zw : a_pw ag = 0). { rewrite Q4. apply (sumf_zero (dp_v h) (dp_w h)); [apply dp_zero|]. rewrite <- Q3. exact Zp. }
-           rewrite Zw, (calc_100 (v_queued e1)), N.add_0_r, N.eqb_refl, calc_100. reflexivity.
+           rewrite Zw, !N.add_0_r, (calc_100 (v_queued e1)), N.eqb_refl, calc_100. reflexivity.
       * unfold sf. cbn. cbn [v_weight set_prev v1 set_start set_status set_amounts]. lia.
       * unfold sf. cbn [vals w_glob]. cbn [v_weight set_prev v1 set_start set_status set_amounts]. lia.
   - intros x y Hne Hy. destruct (Hrec x y Hne Hy) as [y3 [Hy3 [Ec _]]]. exists y3. rewrite Gvf. auto.
